@@ -297,6 +297,137 @@ class Check(PropertyCheck):
                    'INI values are written with %% for a literal % (configparser interpolation)',
                    '`config`, `help`, `version` are not settable from a file (configargparse passes --help=true: exit 2)']
 
+
+    # ------------------------------------------------------------------ stage 0: several config files at once; histories
+    MF_FILES = {
+        'pyproject.toml': [
+            ('[build-system]\nrequires = ["setuptools"]\n\n[tool.pydoctor]\n'
+             'project-name = "Demo"  # shown at the top of every page\n'
+             "html-output = 'build\\tmp\\apidocs'\n"
+             'privacy = [\n  "HIDDEN:demo.test",   # the tests\n  "PRIVATE:demo.impl",\n]\n',
+             [('projectname', ['--project-name=Demo']), ('htmloutput', ['--html-output=build\\tmp\\apidocs']),
+              ('privacy', ['--privacy=HIDDEN:demo.test', '--privacy=PRIVATE:demo.impl'])]),
+            ('[tool.pydoctor]\ndocformat = "google" # the format\n'
+             "project-url = 'C:\\new\\table'\n"
+             'intersphinx = ["http://a/objects.inv",\n"http://b/objects.inv"]\n'
+             'verbose = 2\nwarnings-as-errors = true # yes\n',
+             [('docformat', ['--docformat=google']), ('projecturl', ['--project-url=C:\\new\\table']),
+              ('intersphinx', ['--intersphinx=http://a/objects.inv', '--intersphinx=http://b/objects.inv']),
+              ('verbosity', ['--verbose', '--verbose']), ('warnings_as_errors', ['--warnings-as-errors'])]),
+        ],
+        'setup.cfg': [
+            ('[metadata]\nname = demo\n\n[tool:pydoctor]\ndocformat = restructuredtext\n',
+             [('docformat', ['--docformat=restructuredtext'])]),
+            ('[tool:pydoctor]\n; a comment\nproject-name = From Setup\nprivacy =\n    HIDDEN:s.test\nquiet = 1\n',
+             [('projectname', ['--project-name=From Setup']), ('privacy', ['--privacy=HIDDEN:s.test']),
+              ('quietness', ['--quiet'])]),
+        ],
+        'pydoctor.ini': [
+            ('; ini\n[pydoctor]\ntheme = readthedocs\nproject-version = 1.2.3\n',
+             [('theme', ['--theme=readthedocs']), ('projectversion', ['--project-version=1.2.3'])]),
+            ('[pydoctor]\nproject-name = From Ini\nhtml-output = out dir\n',
+             [('projectname', ['--project-name=From Ini']), ('htmloutput', ['--html-output=out dir'])]),
+        ],
+    }
+    DOCUMENTED = ['pydoctor.ini', 'pyproject.toml', 'setup.cfg']     # docs/source/help.rst: ini > pyproject > setup.cfg
+    AS_CODED = ['pydoctor.ini', 'setup.cfg', 'pyproject.toml']       # reversed(DEFAULT_CONFIG_FILES)
+
+    def mf_dirs(self) -> List[dict]:
+        out = []
+        names = ['pyproject.toml', 'setup.cfg', 'pydoctor.ini']
+        for pick in itertools.product([None, 0, 1], repeat=3):
+            if all(x is None for x in pick):
+                continue
+            files, sets = {}, {}
+            for n, x in zip(names, pick):
+                if x is not None:
+                    files[n] = self.MF_FILES[n][x][0]
+                    sets[n] = self.MF_FILES[n][x][1]
+
+            def merged(order: List[str]) -> List[str]:
+                seen, cli = set(), []
+                for n in order:
+                    for dest, args in sets.get(n, []):
+                        if dest not in seen:
+                            seen.add(dest)
+                            cli += args
+                return cli
+            out.append({'k': 'e2e_multifile', 'pick': list(pick), 'files': files, 'cli': merged(self.DOCUMENTED),
+                        'cli_as_coded': merged(self.AS_CODED)})
+        return out
+
+    @staticmethod
+    def outcome_key(o: dict) -> Any:
+        return [o['exit'], bool(o['exc']), o['opts'], o['warnings']]
+
+    def stage_multifile(self, out: List[Violation]) -> None:
+        dirs = self.mf_dirs()
+        payload = [{'k': 'e2e', 'isolate': True, 'files': d['files'], 'runs': [[]],
+                    'nofile_runs': [d['cli'], d['cli_as_coded']]} for d in dirs]
+        # histories: every ordered pair of a fixed set of directories, and some longer ones, each in ONE process
+        base = [d for d in dirs if sum(x is not None for x in d['pick']) == 1] + \
+               [d for d in dirs if d['pick'] in ([0, 0, None], [1, 1, 1], [0, None, 0])]
+        seqs = [[a, b] for a in base for b in base if a is not b]
+        for _ in range(20 if self.tier == 'quick' else 400):
+            seqs.append([self.rng.choice(dirs) for _ in range(self.rng.randint(3, 5))])
+        payload += [{'k': 'seq', 'fn': 'e2e', 'steps': [{'files': d['files'], 'argv': []} for d in sq]} for sq in seqs]
+        # the pipeline model on the same directories (raw namespace)
+        payload += [{'k': 'ns', 'isolate': True, 'files': d['files'], 'runs': [[]], 'nofile_runs': []} for d in dirs]
+        impl = lib.run_impl_worker(WORKER, payload, jobs=8, timeout=3000)
+        self.evaluations += len(dirs) * 4 + sum(len(sq) for sq in seqs)
+        alone: Dict[str, Any] = {}
+        for d, r in zip(dirs, impl):
+            alone[json.dumps(d['pick'])] = self.outcome_key(r['runs'][0])
+            f = self.same_outcome(r['runs'][0], r['nofile_runs'][0])
+            if f:
+                cc = {'k': 'e2e_multifile', 'pick': d['pick']}
+                if not self.same_outcome(r['runs'][0], r['nofile_runs'][1]) and 'setup.cfg' in d['files'] \
+                        and 'pyproject.toml' in d['files']:
+                    cc['class'] = 'setup_cfg_overrides_pyproject_toml'
+                out.append(Violation('oracle', 'several config files %s vs the command line built with the documented precedence: %s'
+                                     % (sorted(d['files']), f), case=cc,
+                                     observed={'files': d['files'], 'cli': d['cli'], 'file_run': _brief(r['runs'][0]),
+                                               'cli_run': _brief(r['nofile_runs'][0])}))
+        nseq_bad = 0
+        for sq, r in zip(seqs, impl[len(dirs):len(dirs) + len(seqs)]):
+            for i, (d, o) in enumerate(zip(sq, r['steps'])):
+                if self.outcome_key(o) != alone[json.dumps(d['pick'])]:
+                    nseq_bad += 1
+                    if nseq_bad <= 10:
+                        out.append(Violation('oracle', 'history dependence: the options read from directory %s differ when %d other '
+                                             'director%s parsed before it in the same process'
+                                             % (sorted(d['files']), i, 'y was' if i == 1 else 'ies were'),
+                                             case={'k': 'e2e_history', 'picks': [x['pick'] for x in sq[:i + 1]]},
+                                             observed={'in_sequence': _brief(o), 'files_before': [sorted(x['files']) for x in sq[:i]],
+                                                       'files': d['files']}))
+                    break
+        mod_in = []
+        ns_impl = impl[len(dirs) + len(seqs):]
+        for d, r in zip(dirs, ns_impl):
+            fv = []
+            for name in self.AS_CODED:
+                if name in d['files']:
+                    v = r['views'][name]
+                    fv.append([[v['toml']] if v['toml'] is not None else [], [v['ini']] if v['ini'] is not None else []])
+            mod_in.append(enc([8, fv, []]))
+        for d, r, m in zip(dirs, ns_impl, self.model('quote', mod_in)):
+            mm = dec(m)
+            got = r['runs'][0]
+            if mm[0] != 0:
+                continue
+            want = dict((txt(k), _nsval(v)) for k, v in mm[1])
+            g = dict(got['opts'] or {})
+            g.pop('sourcepath', None)
+            g = dict((k, ('sentinel' if isinstance(v, list) and v[:1] == ['object'] else v)) for k, v in g.items())
+            if g != want:
+                out.append(Violation('correspondence', 'Model.Options.pydoctor_parse_args and options.parse_args disagree on a '
+                                     'directory with several config files', case={'k': 'ns', 'isolate': True, 'files': d['files'],
+                                                                                  'runs': [[]], 'nofile_runs': []},
+                                     expected=want, observed=_brief(got, full=True)))
+        self.stats['multifile_dirs'] = len(dirs)
+        self.stats['history_sequences'] = len(seqs)
+        self.sample({'stage': 'multifile', 'files': dirs[-1]['files'], 'cli': dirs[-1]['cli']})
+
     # ------------------------------------------------------------------ stage 1: quoting
     def quote_texts(self) -> Tuple[List[str], List[str]]:
         """(all texts to compare model/impl on, the subjects s whose quoted forms are in there)"""
@@ -948,6 +1079,7 @@ class Check(PropertyCheck):
         self.table = load_table()
         self.stats['options_in_table'] = len(self.table)
         out: List[Violation] = []
+        self.stage_multifile(out)
         self.stage_quote(out)
         self.stage_parsers(out)
         self.stage_options(out)
@@ -963,7 +1095,7 @@ class Check(PropertyCheck):
             self.tier = 'thorough'
             self.table = load_table()
             out: List[Violation] = []
-            for stage in (self.stage_scenarios, self.stage_options, self.stage_quote, self.stage_parsers):
+            for stage in (self.stage_multifile, self.stage_scenarios, self.stage_options, self.stage_quote, self.stage_parsers):
                 try:
                     stage(out)
                 except RuntimeError as e:          # the model may be the thing that is broken
@@ -1020,6 +1152,27 @@ class Check(PropertyCheck):
             b = (r['nofile_runs'][0]['opts'] or {}).get(case['opt'])
             print('written %r; file gives %r; command line gives %r' % (case['value'], a, b))
             return 0 if a == case['value'] == b else 1
+        if k in ('e2e_multifile', 'e2e_history'):
+            dirs = dict((json.dumps(d['pick']), d) for d in self.mf_dirs())
+            if k == 'e2e_multifile':
+                d = dirs[json.dumps(case['pick'])]
+                r = lib.run_impl_worker(WORKER, [{'k': 'e2e', 'isolate': True, 'files': d['files'], 'runs': [[]],
+                                                  'nofile_runs': [d['cli']]}])[0]
+                f = self.same_outcome(r['runs'][0], r['nofile_runs'][0])
+                print('files    :', json.dumps(d['files']))
+                print('cli      :', d['cli'], '(documented precedence: pydoctor.ini > pyproject.toml > setup.cfg)')
+                print('file run :', json.dumps(_brief(r['runs'][0], full=True))[:1500])
+                print('property : same effective Options' + (': ' + f if f else ' -- holds'))
+                return 1 if f else 0
+            sq = [dirs[json.dumps(p)] for p in case['picks']]
+            r = lib.run_impl_worker(WORKER, [{'k': 'seq', 'fn': 'e2e', 'steps': [{'files': d['files'], 'argv': []} for d in sq]},
+                                             {'k': 'e2e', 'isolate': True, 'files': sq[-1]['files'], 'runs': [[]], 'nofile_runs': []}])
+            a, b = self.outcome_key(r[0]['steps'][-1]), self.outcome_key(r[1]['runs'][0])
+            print('directories parsed one after the other in one process:', [sorted(d['files']) for d in sq])
+            print('last one, in sequence:', json.dumps(_brief(r[0]['steps'][-1], full=True))[:1200])
+            print('last one, alone      :', json.dumps(_brief(r[1]['runs'][0], full=True))[:1200])
+            print('property : the two must be equal' + (' -- holds' if a == b else ' -- VIOLATED'))
+            return 0 if a == b else 1
         if k == 'validate':
             r = lib.run_impl_worker(WORKER, [case])[0]
             known = [x for o in self.table for x in o['keys']]
